@@ -129,8 +129,14 @@ func VfC03_TableFill() {
 	text1 := "idA 10.0.1.1:7000@17000 myself,master - 0 0 1 connected " + mkRange(lo, hi) + " [99->-idB]\n" +
 		"idR1 10.0.1.2:7000@17000 slave idA 0 0 1 connected\n" +
 		"idB 10.0.1.3:7000@17000 master - 0 0 2 connected\n"
+	// connections to members of the cluster that are not masters with slots (a replica serving
+	// reads, a master whose slots are on their way) may have requests in flight
+	replicaConn := vfFakeClient()
+	clients["10.0.1.2:7000"] = replicaConn
+	u.clients.Store(clients)
 	err := round(text1)
 	nd.Assert(err == nil, "a well-formed CLUSTER NODES reply (master without slots, migration marker) is accepted")
+	nd.Assert(!vfDone(replicaConn.quit), "a refresh leaves the connections to the cluster's nodes alone (requests in flight on a replica's connection are not cut)")
 	if err != nil {
 		return
 	}
